@@ -79,3 +79,80 @@ func init() {
 		}
 	}
 }
+
+// ---------------------------------------------------------------------------
+// github.com/allegro/bigcache/v3 as a string-keyed byte-slice map (no eviction, no hash
+// collisions: bigcache stores the key with the entry and answers ErrEntryNotFound on a mismatch).
+// Package bigcache must be a source root (its init creates ErrEntryNotFound).
+
+var (
+	bcOwner  *memFS // the tables belong to one path (memfs is re-created per path)
+	bcTables map[*value]map[string][]value
+)
+
+func bcTable(p *value) map[string][]value {
+	if bcOwner != mfs || bcTables == nil {
+		bcOwner, bcTables = mfs, map[*value]map[string][]value{}
+	}
+	t := bcTables[p]
+	if t == nil {
+		t = map[string][]value{}
+		bcTables[p] = t
+	}
+	return t
+}
+
+func init() {
+	const bc = "github.com/allegro/bigcache/v3"
+	if externals[bc+".New"] != nil {
+		return
+	}
+	externals[bc+".New"] = func(fr *frame, args []value) value {
+		stub("bigcache (model: string-keyed map, entries copied, no eviction)")
+		pkg := fr.i.prog.ImportedPackage(bc)
+		if pkg == nil || pkg.Type("BigCache") == nil {
+			panic(pathAbort{"unsupported", "bigcache.New: package bigcache is not loaded"})
+		}
+		cell := zero(pkg.Type("BigCache").Type())
+		return tuple{&cell, iface{}}
+	}
+	externals["(*"+bc+".BigCache).Set"] = func(fr *frame, args []value) value {
+		p := args[0].(*value)
+		if p == nil {
+			panic(targetPanicMsg("runtime error: invalid memory address or nil pointer dereference (bigcache.Set)"))
+		}
+		src, _ := args[2].([]value)
+		bcTable(p)[args[1].(string)] = append([]value{}, src...)
+		return iface{}
+	}
+	externals["(*"+bc+".BigCache).Get"] = func(fr *frame, args []value) value {
+		p := args[0].(*value)
+		if p == nil {
+			panic(targetPanicMsg("runtime error: invalid memory address or nil pointer dereference (bigcache.Get)"))
+		}
+		if e, ok := bcTable(p)[args[1].(string)]; ok {
+			return tuple{append([]value{}, e...), iface{}}
+		}
+		pkg := fr.i.prog.ImportedPackage(bc)
+		if g := pkg.Var("ErrEntryNotFound"); g != nil {
+			if c, ok := fr.i.globals[g]; ok {
+				if e, ok := (*c).(iface); ok && e.t != nil {
+					return tuple{[]value(nil), e}
+				}
+			}
+		}
+		panic(pathAbort{"unsupported", "bigcache.Get: ErrEntryNotFound is not initialised (make github.com/allegro/bigcache/v3 a source root)"})
+	}
+}
+
+func init() {
+	// solana.PublicKey.Bytes: `return []byte(p[:])` (exact model; solana-go is not a source root).
+	const pkb = "(github.com/gagliardetto/solana-go.PublicKey).Bytes"
+	if externals[pkb] == nil {
+		externals[pkb] = func(fr *frame, args []value) value {
+			stub("solana.PublicKey.Bytes (model: exact, copy of the 32 bytes)")
+			a := args[0].(array)
+			return append([]value{}, a...)
+		}
+	}
+}
